@@ -21,7 +21,7 @@ Section O13.
         && (let newly := is_project_entry i && is_none odd in
             let dd := match odd with Some d => d | None => [] end in
             forallb (fun e =>
-                       if in_reach i newly e && negb (path_excluded i (fst e)) && absent_in (fst e) dd
+                       if in_reach i newly e && negb (path_excluded i (fst e)) && absent_in (is_none (snd e)) (fst e) dd
                        then same_at frepr dd' e else true) (flat sd))
     end.
 
